@@ -265,8 +265,17 @@ def _anf_inv(c, A, K):
     return z3.And(UInv(c, S), Fresh(c, S), _edges_untouched(c, S, S0), _nodes_only_added(c, S, S0))
 
 
+from contracts.common import anf_post  # noqa: E402
+
+
+def _anf_groups(c, A, K):
+    S, S0 = K.S, A.S0
+    return [G("struct", ("C01",), UInv(c, S)), G("fresh", ("C01", "C04"), z3.And(Fresh(c, S), _edges_untouched(c, S, S0))),
+            G("frame", ("C05",), z3.And(_nodes_only_added(c, S, S0), rec_eq(c, A.attr.get()[0], A.attr.get()[1], A.kw0["attr"][0], A.kw0["attr"][1])))]
+
+
 s = std(contract(H + "add_nodes_from", [("self", "net:H"), ("nodes_for_adding", "val"), ("attr", "kwattr")]))
-s.loop("for n in nodes_for_adding", _anf_inv)
+s.loop("for n in nodes_for_adding", _anf_groups, post=anf_post)
 s.ens_all("edges-untouched", ("C04", "C05"), lambda c, A, R: _edges_untouched(c, R.S, A.S0))
 s.ens_all("nodes-only-added", ("C05",), lambda c, A, R: _nodes_only_added(c, R.S, A.S0))
 s.exc("XGIError")
